@@ -168,6 +168,7 @@ func smokeChild(planPath string) {
 	}
 	res.Stage = "start"
 	ctx, cancel := context.WithCancel(context.Background())
+	defer cancel()
 	done := make(chan bool, 1)
 	go func() { done <- m.Run(ctx) }()
 	// wait until the front (or test) TCP listener answers, or Run gave up
@@ -393,7 +394,7 @@ type SmokeOutcome struct {
 	Timeout bool         `json:"timeout,omitempty"`
 }
 
-var rePanicSite = regexp.MustCompile(`(?m)^(github\.com/database64128/shadowsocks-go/[^\s(]+)`)
+var rePanicSite = regexp.MustCompile(`(?m)^(github\.com/database64128/shadowsocks-go/\S+)\(`)
 
 // runSmoke runs the plan in a child (re-tried when a port was taken).
 func runSmoke(plan SmokePlan, tmp string) SmokeOutcome {
@@ -489,7 +490,7 @@ func genSmoke(r *common.Rng) (ConfigC, SmokePlan) {
 		nat := okNatAny
 		natSec := []int{0, 1, 59, 60, 300}
 		if ss {
-			nat, natSec = okNatSS, []int{0, 60, 61, 300}
+			nat, natSec = okNatSS, okNatSecSS
 		}
 		bm := common.Pick(r, batchModes)
 		rb, sb, cc := common.Pick(r, []int{0, 1, 8, 1024}), common.Pick(r, []int{0, 1, 64, 1024}), common.Pick(r, []int{0, 64, 65, 1024})
